@@ -16,7 +16,7 @@ func (g *G) stmt() Tri {
 		return printCall(same(`"~"`))
 	}
 	for tries := 0; tries < 3; tries++ {
-		switch g.n(0, 25, "stmt") {
+		switch g.n(0, 26, "stmt") {
 		case 0, 1:
 			return g.stDecl()
 		case 2, 3:
@@ -96,6 +96,10 @@ func (g *G) stmt() Tri {
 		case 25:
 			if g.allow("struct") {
 				return g.stAnonStruct()
+			}
+		case 26:
+			if g.allow("map") && g.loops == 0 {
+				return g.stMapChurn()
 			}
 		}
 	}
